@@ -1,4 +1,4 @@
 From Coq Require Import Extraction ExtrOcamlBasic.
 Require Import NixV.Base.Prelude NixV.FileIO.Version NixV.FileIO.Modes NixV.FileIO.Close NixV.FileIO.Tree NixV.FileIO.Script.
 Extraction Language OCaml.
-Extraction "model_C11.ml" sstep init unlink_only_names unlink_loop_names.
+Extraction "model_C11.ml" sstep2 init2 unlink_only_names unlink_loop_names.
